@@ -7,6 +7,7 @@
 #include <type_traits>
 
 #include "SM/FokkerPlanckMap.hpp"
+#include "VerifHooks.hpp"
 
 vfps::FokkerPlanckMap::FokkerPlanckMap( std::shared_ptr<PhaseSpace> in
                                       , std::shared_ptr<PhaseSpace> out
@@ -27,6 +28,14 @@ vfps::FokkerPlanckMap::FokkerPlanckMap( std::shared_ptr<PhaseSpace> in
   , _fptype(fptype)
   , _meshxsize(xsize)
 {
+    #ifdef INOVESA_VERIF
+    {
+        unsigned long verif_seed;
+        if (verif::prng_seed(verif_seed)) {
+            _prng.seed(verif_seed);
+        }
+    }
+    #endif // INOVESA_VERIF
     // the following doubles should be interpol_t
     const interpol_t e1_2d = e1/(interpol_t(2)*in->getDelta(1));
     const interpol_t e1_6d = e1/(interpol_t(6)*in->getDelta(1));
